@@ -243,3 +243,24 @@ PLANS["C11"] = {
     "floors": {"quick": {"helper_calls": 300000, "interchange_jobs": 8000}},
     "assumptions": ["HMAC partial states via libcrypto low-level *_Transform and own SM3 compression function"],
 }
+
+PLANS["C13"] = {
+    "level": "exploration",
+    "runs": _simple("residue", 24000, 1200000),
+    "cov_class": "C13",
+    "rule": ("cases = schedules (suite from the cipher/hash/AEAD tables or a random chained pair; 1..17 jobs so "
+             "that completion happens inside submit with full lanes or by flush with partially filled lanes; three "
+             "length modes) run once per secret class (cipher key material / authentication key material / "
+             "plaintext) with that class filled with a pattern byte absent from a fresh manager and everything else "
+             "random; after the API call that hands back the last job the trampoline's register dump (GPRs, "
+             "zmm0-31, k0-7), the 64 KiB stack window below the call and the whole manager block are scanned for 8 "
+             "pattern bytes; a hit is confirmed by repeating the schedule with another byte on a fresh manager; 15 "
+             "key helpers are scanned after each call. distinct = distinct (variant, cipher, hash, class, job "
+             "count, length mode) tuples; non-trivial = a scan was actually taken (schedules whose secrets cannot "
+             "be patterned are skipped and not counted)."),
+    "floors": {"quick": {"residue_scans": 15000, "helper_scans": 150}},
+    "assumptions": ["only residue present at the return of the emptying API call is observable",
+                    "derived secrets that are not byte patterns (round keys computed from a real key, Poly1305 "
+                    "one-time key, LFSR states) are outside the pattern oracle; expanded key material is patterned "
+                    "directly instead"],
+}
